@@ -4,7 +4,7 @@ import json, sys
 sid, caught, ran = sys.argv[1], sys.argv[2], sys.argv[3]
 d = '/verif/seeded/' + sid
 a = json.load(open(d + '/agent_meta.json'))
-m = dict(id=sid, property=a['property'], breaks=a.get('summary'), needs_to_manifest=a.get('needs_to_manifest'), files=a.get('files'), demo_cmd=a.get('demo_cmd'),
+m = dict(id=sid, property=a['property'], breaks=a.get('summary') or a.get('breaks'), needs_to_manifest=a.get('needs_to_manifest'), files=a.get('files'), demo_cmd=a.get('demo_cmd') or ('go test -vet=off -count=1 -run TestSeededDemo ' + str(a.get('demo_pkg')) + ' (in ' + str(a.get('module_subdir')) + ')'),
          confirmed='patch applies to /repo HEAD at adoption time, builds, demonstration fails with the patch and passes without it (tools/adopt_seed.sh)',
          what_i_ran=ran, caught_by=[c.strip() for c in caught.split(';') if c.strip()])
 if len(sys.argv) > 4:
